@@ -4,6 +4,10 @@ correspondence ops tie the model to /repo, how many cases per tier, what is trus
 TB_URL = "url crate: Url::parse / serialisation of endpoint URLs (model takes the canonical text as input)"
 TB_HTTP = "http crate: Uri acceptance and fragment stripping (flag uriOk computed by the harness with http::Uri)"
 
+TB_JSON = "serde_json 1.0.151 text syntax, number classification and printer: hand-modelled in Model/Json.lean, validated by correspondence on every case"
+TB_SERDE = "serde_derive's generated visitors (member walk, duplicate detection, flatten buffering, IgnoredAny): hand-modelled in Model/Serde.lean"
+TB_LOWER = "str::to_lowercase for non-ASCII strings (result supplied by the harness from std; ASCII lower-casing is the model's own and cross-checked)"
+
 PROPS = {
     "C01": {
         "lean": ["OAuth2Model.Props.C01"],
@@ -27,5 +31,38 @@ PROPS = {
         "n": {"quick": 4000, "thorough": 300000},
         "trusted_base": [TB_URL, TB_HTTP, "base64 crate (BASE64_STANDARD) modelled in Model/Base64.lean, compared after decoding"],
         "assumptions": ["server-side recovery = strip 'Basic ', base64-decode, split at first ':', form-decode both halves"],
+    },
+    "C06": {
+        "lean": ["OAuth2Model.Props.C06"],
+        "theorems": ["C06.C06_refines", "C06.C06_duplicate_rejected", "C06.C06_object_only", "C06.C06_sound",
+                     "C06.C06_faithful", "C06.C06_case_insensitive", "C06.C06_case_insensitive_doc",
+                     "C06.C06_extension_type", "C06.C06_reject", "C06.C06_reject_cases", "C06.C06_unknown_ignored",
+                     "C06.C06_extension_delivered", "C06.C06_extension_required"],
+        "ops": ["tok"],
+        "signatures": ["C06:"],
+        "n": {"quick": 4000, "thorough": 300000},
+        "trusted_base": [TB_JSON, TB_SERDE, TB_LOWER,
+                         "hand-written model lean/OAuth2Model/Model/{Json,Serde,ErrorCodes,TokenResponse}.lean of StandardTokenResponse's derived Deserialize and src/helpers.rs"],
+        "assumptions": ["theorems are stated on JSON trees; the text layer (Json.parsePrefix) is validated by op tok, not verified",
+                        "bytes after the first JSON value are ignored by the HTTP path (known finding F5, property C05) and mirrored by the model",
+                        "an empty scope string yields one empty scope; 'a  b' yields ['a','','b'] (split on single spaces, exactly)",
+                        "non-ASCII token_type strings are lower-cased by std's Unicode tables (external parameter)"],
+    },
+    "C14": {
+        "lean": ["OAuth2Model.Props.C14"],
+        "theorems": ["C14.C14_tables", "C14.C14_rfc", "C14.C14_ser_parse", "C14.C14_parse_ser", "C14.C14_canonical",
+                     "C14.C14_exact", "C14.C14_extension", "C14.C14_fallthrough", "C14.C14_refines",
+                     "C14.C14_duplicate_rejected", "C14.C14_fields", "C14.C14_accepts", "C14.C14_reject",
+                     "C14.C14_display", "C14.C14_serialize", "C14.C14_positional"],
+        "ops": ["err"],
+        "signatures": ["C14:"],
+        "n": {"quick": 4000, "thorough": 300000},
+        "exhaustive_note": "thorough tier enumerates 79 code strings x 3 families x every matching request kind (+direct) x description/uri {absent,null,text}",
+        "trusted_base": [TB_JSON, TB_SERDE,
+                         "hand-written tables lean/OAuth2Model/Model/ErrorCodes.lean of the from_str/as_ref match arms in basic.rs, devicecode.rs, revocation.rs (to be equated with extractor-generated tables)",
+                         "hand-written model lean/OAuth2Model/Model/ErrorResponse.lean of StandardErrorResponse's derives and Display"],
+        "assumptions": ["Extension(s) with s a defined code is not canonical (no parse produces it); C14_parse_ser excludes exactly that value",
+                        "serde accepts the positional array form of StandardErrorResponse (non-flattened struct); mirrored, not a defect",
+                        "through the device poll loop authorization_pending / slow_down are observed as 'loop continued' (next wait 0 s / 5 s)"],
     },
 }
